@@ -3,7 +3,7 @@ import ClaripyProofs.Lemmas.VSA.SetQueries
 import ClaripyProofs.Lemmas.VSA.Lub
 import ClaripyProofs.Lemmas.VSA.AddSub
 import Claripy.VSA.Conc
-import ClaripyProofs.Lemmas.VSA.ValueSetSound
+import ClaripyProofs.Lemmas.VSA.SetOpsSound4
 /-!
 # C23 — discrete interval sets and region value sets are sound abstractions
 
@@ -200,6 +200,20 @@ theorem C23_dsis_intersection (w : Nat) (hw : 0 < w) (a : DSIS) (hab : a.bits = 
     (∀ b orders order v, (∀ m, m ∈ b.sis → NEa w m) → a.meetDS b orders order = .ok v → ∀ x, a.mem x → b.mem x → v.mem x) :=
   ⟨fun s order v hs h => (dsis_meetSI w hw a s order v hab ha hs h).2,
    fun b orders order v hb h => dsis_meetDS w hw a b orders order v hab ha hb h⟩
+
+/-- `set // set`: the lifting of `udiv` (every per-pair call has its own recorded set order); division by zero exempt -/
+theorem C23_dsis_udiv (w : Nat) (a : DSIS) (bs : List SI) (orders : List (List Nat)) (order : List Nat) (v : Val)
+    (ha : ∀ s, s ∈ a.sis → NE w s) (hb : ∀ t, t ∈ bs → NE w t)
+    (h : a.udivSet bs orders order = .ok v) (x y : Nat) (hx : a.mem x) (hy : memL bs y) (hy0 : y ≠ 0) : v.mem (x / y) :=
+  dsis_udiv w a bs orders order v ha hb h x y hx hy hy0
+
+/-- `valueset + interval`, `- interval`, `% interval` (the divisor aligned) are sound region by region -/
+theorem C23_valueset_arith (w : Nat) (v v' : VS) (b : SI) (hv : ∀ p, p ∈ v.regions → NE w p.2) (hb : NE w b) (region : String)
+    (x y : Nat) (hx : v.memAt region x) (hy : b.mem y) :
+    (v.mapRegions (fun s => pure (s.add b)) = .ok v' → v'.memAt region ((x + y) % 2 ^ w)) ∧
+    (v.mapRegions (fun s => pure (s.sub b)) = .ok v' → v'.memAt region ((x + 2 ^ w - y) % 2 ^ w)) ∧
+    (b.Aligned → v.mapRegions (fun s => s.mod b) = .ok v' → y ≠ 0 → v'.memAt region (x % y)) :=
+  vs_arith w v v' b hv hb region x y hx hy
 
 /-- full statement for `widen` of a set (`self.collapse().widen(b)`) -/
 def C23_dsis_widen_full : Prop :=
